@@ -74,6 +74,13 @@ ArrayMags  == << Q(1, 1), Q(-3, 1), <<"mul", Q(25, 1), P10(-8)>>, Q(4, 1) >>
 \* all-zero array are refused like any other value
 ZeroMags   == << Q(0, 1), <<"neg", Q(0, 1)>> >>
 ZeroArray  == << Q(0, 1), <<"neg", Q(0, 1)>>, Q(0, 1) >>
+\* the TARGET of to() may itself be a quantity  m v  ("how many m v is x u"): the result is the conversion to v
+\* divided by m; a refusal is the same refusal, and leaves source and target as they were
+TargetMags == << Q(1, 1), Q(5, 2), <<"mul", Q(2, 1), P10(3)>>, Q(-4, 1) >>
+QTargetTerm(r, A, B) == <<"div", ExpectTerm(r, A, B), <<"y">>>>          \* y: magnitude of the target quantity
+\* a quantity may carry an uncertainty (abse / rele): the converted VALUE is the conversion of the exact value,
+\* for every conversion family.  <<kind, amount>>: "rele" percent; "abse_frac" = that fraction of |x| (of 1 at x = 0)
+Uncertainties == << <<"rele", Q(10, 1)>>, <<"abse_frac", Q(1, 5)>>, <<"abse_frac", Q(3, 2)>> >>
 \* magnitude kinds of the library (float, Decimal, array): a conversion keeps the kind, and its result does not
 \* depend on which kinds were converted to the same target before
 MagKinds   == <<"float", "decimal", "array">>
